@@ -5,6 +5,7 @@
 import CimbaModel.Sim.Basic
 import CimbaModel.HashHeap.Orders
 import CimbaModel.Sim.S3Cond
+import CimbaModel.Sim.S3All
 
 namespace CimbaModel.Props.C13
 open CimbaModel CimbaModel.Sim CimbaModel.Event CimbaModel.Generated CimbaModel.HashHeap.SpecOrders
@@ -145,5 +146,29 @@ example : ∃ (w : World) (gd : Guard), w.conds[0]? = some 0 ∧ w.guards[0]? = 
     exact Nat.pos_iff_ne_zero.1 this
   · have : (⟨3, 0, ⟨3, 0, 0, 0⟩, 0, 0⟩ : HTag) ∈ abs s1 := hperm.mem_iff.2 (by simp [KPQ.insert, norm])
     exact List.mem_map.2 ⟨_, this, rfl⟩
+
+
+/-! ### in every reachable state
+
+`AllInv` (Props/C04, Sim/S3All) is an invariant of `dispatch`; its clauses give the hypotheses of the theorems above and
+the ownership of condition wake-ups: -/
+
+theorem cond_lists_wellformed {w0 w : World} (hr : Reach w0 w) (h0 : AllInv w0) (g : Nat) (gd : Guard)
+    (hg : w.guards[g]? = some gd) : WF guard_queue_check gd.q := (h0.reach hr).g.gw g gd hg
+
+/-- a pending condition wake-up is addressed to a process suspended in `cond_wait` that still awaits the condition's
+    guard, is already off its waiting list, and has no second wake-up / grant pending -/
+theorem cond_wakeup_owned {w0 w : World} (hr : Reach w0 w) (h0 : AllInv w0) {e : HTag} (he : e ∈ w.ev.pending)
+    (ha : e.item.a = aCond) :
+    (∃ c, (w.proc (e.item.b - 1)).blocked = some (.condWait c)) ∧
+    ∃ p g f, e.item.b = p + 1 ∧ (w.proc p).blocked = some f ∧ FrameOn w f g ∧ guardAw w p = [.guard g] ∧
+      ¬ queued w g (p + 1) ∧ (∀ g', ¬ queued w g' (p + 1)) ∧
+      ∀ e' ∈ w.ev.pending, isGrant e' → e'.item.b = p + 1 → e' = e :=
+  ⟨(h0.reach hr).g.cond_owned he ha, (h0.reach hr).g.grant_owned he (Or.inr ha)⟩
+
+/-- the waiters of a condition are suspended in `cond_wait` -/
+theorem cond_waiters_in_cond_wait {w0 w : World} (hr : Reach w0 w) (h0 : AllInv w0) {c g k : Nat}
+    (hc : w.conds[c]? = some g) (hq : queued w g k) : ∃ c', (w.proc (k - 1)).blocked = some (.condWait c') :=
+  (h0.reach hr).g.gkc c g hc k hq (noEx_not _)
 
 end CimbaModel.Props.C13
